@@ -16,8 +16,9 @@
 //!               `glyphArea` ties the model to the ORACLE's reading of the property, not to the code.
 //!               The real code is tied through `bits` (below) and through `font.draw`: what it draws must
 //!               be exactly `font.image.pixel()` over that area (custom atlases are random bits, so a wrong
-//!               cell shows), and the part of the area that IS observable, its size, is checked on the real
-//!               `fill_contiguous` call (area = `(0,0) cw x ch` with exactly `cw*ch` colours).
+//!               cell shows), and the part of the area that IS observable, its size, is taken from the real
+//!               `fill_contiguous` call whenever the glyph is drawn (the printed `aw,ah`; the oracle demands
+//!               area = `(0,0) cw x ch` with exactly `cw*ch` colours); only `ax,ay` are the harness's.
 //!        bits = what drawing the single character with text+background colour hands to the target's
 //!               `fill_contiguous` (real; all colours of the call, which must be exactly w*h), `-` if
 //!               nothing is drawn
@@ -642,9 +643,12 @@ impl Module for M {
                         let s: String = c.to_string();
                         style.draw_string(&s, Point::zero(), Baseline::Top, &mut r2).expect("no fault");
                         let n = (cell.2 * cell.3) as usize;
+                        // the observable part of the glyph area: the size of the real fill_contiguous call
+                        let mut real_size = (cell.2, cell.3);
                         let drawn: Option<Vec<bool>> = match r2.rec.log.as_slice() {
                             [] => None,
                             [Call::FillContiguous(a, cs)] => {
+                                real_size = (a.size.width, a.size.height);
                                 ctx.expect(
                                     *a == embedded_graphics::primitives::Rectangle::new(Point::zero(), Size::new(cell.2, cell.3)) && cs.len() == n,
                                     "C14:glyph-drawn-into-wrong-area",
@@ -677,7 +681,7 @@ impl Module for M {
                             Some(v) => v.iter().map(|b| if *b { '1' } else { '0' }).collect::<String>(),
                             None => "-".to_string(),
                         };
-                        items.push(format!("{}:{},{},{},{}:{}", idx, cell.0, cell.1, cell.2, cell.3, bits));
+                        items.push(format!("{}:{},{},{},{}:{}", idx, cell.0, cell.1, real_size.0, real_size.1, bits));
                     }
                     if items.is_empty() {
                         "-".to_string()
